@@ -103,7 +103,7 @@ CHECKS = {
  "C11": dict(
    text="Partial. Theorems: forced quote styles are forced; AutoPrefer* takes the preferred quote unless the other needs strictly fewer escapes; the rule is observable on the output. Validation: the quote rule on every string token of every output. "
         "Call-form and function-name spacing rules: theorems on the decision kernels (CallForm.v; the option readers and trivia creators of context.rs regenerated by rs2v), validated on the output AST. "
-        "L0 (Fmt0.v): the whole-formatter model on a fragment of Lua 5.1 carries call_parentheses (a call-form pass, Fmt0.cexp, built on CallForm.call_form with the 'an index or method call follows' context) and space_after_function_names (blanks before `(` of calls and of function headers, the second blank of `f  \"s\"` included), tied to the binary byte for byte under every value on every run. On L0: every call site of what format0 prints has the form the option asks for (format0_calls_obey_the_option); under Input every call is printed as written (cexp_input_prints_the_same); a tree-blind scanner of the printed tokens finds a blank before the `(` of call arguments exactly under Calls / Always and before the `(` of a named function header exactly under Definitions / Always (Fmt0Space.printed_tokens_obey_space_after_function_names).",
+        "L0 (Fmt0.v): the whole-formatter model on a fragment of Lua 5.1 carries call_parentheses (a call-form pass, Fmt0.cexp, built on CallForm.call_form with the 'an index or method call follows' context) and space_after_function_names (blanks before `(` of calls and of function headers, the second blank of `f  \"s\"` included), tied to the binary byte for byte under every value on every run. On L0: every call site of what format0 prints has the form the option asks for (format0_calls_obey_the_option); under Input every call is printed as written (cexp_input_prints_the_same); a tree-blind scanner of the printed tokens finds a blank before the `(` of call arguments exactly under Calls / Always and before the `(` of a named function header exactly under Definitions / Always (Fmt0Space.printed_tokens_obey_space_after_function_names). On L0 also: every quoted string token of the output carries the quote quote_style asks for, for every program and configuration (C11_L0_every_string_obeys_quote_style; the same extracted judge, Fmt0.quote_ok, runs on every string token of every output of the check).",
    design="5/C11", technique="Coq proof of the quote rule and of the call-form rule on whole L0 programs + rule evaluation on every output token + L0 whole-formatter model (byte-for-byte tie under every option value) + regenerated option kernels",
    note=BASE_NOTE),
  "C08": dict(
